@@ -1906,6 +1906,19 @@ func (r *Raft) installSnapshot(rpc RPC, req *InstallSnapshotRequest) {
 		}
 		reqConfigurationIndex = req.LastLogIndex
 	}
+	// A snapshot that ends at or below what the state machine has already
+	// applied, or whose last entry we hold in the log, is a delayed or repeated
+	// request: everything in it is known here, and installing it would take the
+	// state machine backwards and throw away log entries that follow it.
+	if req.LastLogIndex <= r.getLastApplied() || r.holdsEntry(req.LastLogIndex, req.LastLogTerm) {
+		r.logger.Info("ignoring installSnapshot request that is already covered by local state",
+			"snapshot-index", req.LastLogIndex,
+			"last-applied", r.getLastApplied())
+		resp.Success = true
+		r.setLastContact()
+		return
+	}
+
 	version := getSnapshotVersion(r.protocolVersion)
 	sink, err := r.snapshots.Create(version, req.LastLogIndex, req.LastLogTerm,
 		reqConfiguration, reqConfigurationIndex, r.trans)
@@ -1975,14 +1988,30 @@ func (r *Raft) installSnapshot(rpc RPC, req *InstallSnapshotRequest) {
 	r.setLatestConfiguration(reqConfiguration, reqConfigurationIndex)
 	r.setCommittedConfiguration(reqConfiguration, reqConfigurationIndex)
 
-	// Clear old logs if r.logs is a MonotonicLogStore. Otherwise compact the
-	// logs. In both cases, log any errors and continue.
+	// Nothing we hold at or above the snapshot's index has been checked
+	// against the leader's log: remove it. Clear all old logs if r.logs is a
+	// MonotonicLogStore, otherwise drop that suffix and compact below the
+	// snapshot as usual. In all cases, log any errors and continue.
 	if mlogs, ok := r.logs.(MonotonicLogStore); ok && mlogs.IsMonotonic() {
 		if err := r.removeOldLogs(); err != nil {
 			r.logger.Error("failed to reset logs", "error", err)
 		}
-	} else if err := r.compactLogs(req.LastLogIndex); err != nil {
-		r.logger.Error("failed to compact logs", "error", err)
+	} else {
+		if lastLogIdx, _ := r.getLastLog(); lastLogIdx >= req.LastLogIndex {
+			if err := r.logs.DeleteRange(req.LastLogIndex, lastLogIdx); err != nil {
+				r.logger.Error("failed to clear log suffix", "error", err)
+			}
+		}
+		if err := r.reloadLastLog(); err != nil {
+			r.logger.Error("failed to reload last log", "error", err)
+		}
+		if err := r.compactLogs(req.LastLogIndex); err != nil {
+			r.logger.Error("failed to compact logs", "error", err)
+		}
+	}
+	// The cached last log entry must describe what the store now holds.
+	if err := r.reloadLastLog(); err != nil {
+		r.logger.Error("failed to reload last log", "error", err)
 	}
 
 	r.logger.Info("Installed remote snapshot")
@@ -2276,4 +2305,36 @@ func (r *Raft) getLatestConfiguration() Configuration {
 	default:
 		return Configuration{}
 	}
+}
+
+// holdsEntry reports whether this server holds the entry with the given index
+// and term, either in its log or as the last entry of its snapshot.
+func (r *Raft) holdsEntry(index, term uint64) bool {
+	if snapIdx, snapTerm := r.getLastSnapshot(); index == snapIdx && index > 0 {
+		return term == snapTerm
+	}
+	if lastLogIdx, _ := r.getLastLog(); index == 0 || index > lastLogIdx {
+		return false
+	}
+	var l Log
+	if err := r.logs.GetLog(index, &l); err != nil {
+		return false
+	}
+	return l.Term == term
+}
+
+// reloadLastLog refreshes the cached last log index and term from the log store.
+func (r *Raft) reloadLastLog() error {
+	lastIdx, err := r.logs.LastIndex()
+	if err != nil {
+		return err
+	}
+	var last Log
+	if lastIdx > 0 {
+		if err := r.logs.GetLog(lastIdx, &last); err != nil {
+			return err
+		}
+	}
+	r.setLastLog(last.Index, last.Term)
+	return nil
 }
